@@ -30,7 +30,9 @@ ASSUMPTIONS = [
     "prefix solves are answered by a scripted back-end (caches are filled before the back-end is called), the last solve is real",
 ]
 
-INIT = {"obj": None, "sense": None, "cons": (), "xub": 4.0, "ylb": 0.0}
+INIT = {"obj": None, "sense": None, "cons": (), "xub": 4.0, "ylb": 0.0, "free": False}
+# every variable unbounded when the first caches are built; bounds appear (and disappear) later
+INIT_FREE = {"obj": None, "sense": None, "cons": (), "xub": None, "ylb": None, "free": True}
 METHODS = ("auto", "linprog", "highs", "SLSQP", "trust-constr", "L-BFGS-B")
 OBJ_KEYS = ("L1", "L2", "Q", "N")
 CON_KEYS = ("c1", "c2", "c3", "c4")
@@ -64,7 +66,15 @@ def formulas(x, y, a=None, z=None):
 
 
 def model_key(m):
-    return (m["obj"], m["sense"], m["cons"], m["xub"], m["ylb"])
+    return (m["obj"], m["sense"], m["cons"], m["xub"], m["ylb"]) + (("free",) if m.get("free") else ())
+
+
+def make_vars(m):
+    import optyx
+
+    if m.get("free"):
+        return optyx.Variable("x", ub=m["xub"]), optyx.Variable("y", lb=m["ylb"])
+    return optyx.Variable("x", lb=0.0, ub=m["xub"]), optyx.Variable("y", lb=m["ylb"], ub=4.0)
 
 
 def apply_model(m, op):
@@ -88,8 +98,7 @@ def apply_model(m, op):
 def fresh_problem(m):
     import optyx
 
-    x = optyx.Variable("x", lb=0.0, ub=m["xub"])
-    y = optyx.Variable("y", lb=m["ylb"], ub=4.0)
+    x, y = make_vars(m)
     objs, cons = formulas(x, y)
     P = optyx.Problem()
     if m["obj"] is not None:
@@ -190,9 +199,10 @@ def hidden_state(P):
 
 
 class Driver:
-    def __init__(self, menu, max_cons=2):
+    def __init__(self, menu, max_cons=2, init=None):
         self.menu = menu
         self.max_cons = max_cons
+        self.init = dict(init or INIT)
 
     def ops(self, model, hist):
         out = []
@@ -212,14 +222,14 @@ class Driver:
     def run(self, hist):
         import optyx
 
-        x = optyx.Variable("x", lb=0.0, ub=INIT["xub"])
-        y = optyx.Variable("y", lb=INIT["ylb"], ub=4.0)
+        init = INIT_FREE if hist and hist[0] == ("init", "free") else self.init
+        x, y = make_vars(init)
         objs0, cons = formulas(x, y)
         # the user keeps the expression object: minimize(f) ... maximize(f) re-install the SAME object
         shared = {}
         objs = {k: (lambda k=k: shared.setdefault(k, objs0[k]())) for k in objs0}
         P = optyx.Problem()
-        m = dict(INIT)
+        m = dict(init)
         tags = {"_variables": None, "_solver_cache": None, "hess": None, "_lp_cache": None, "_is_linear_cache": None}
         ids = {"_variables": None, "_solver_cache": None, "_lp_cache": None}
         fails = Fails()
@@ -228,6 +238,8 @@ class Driver:
             last = i == n - 1
             k = op[0]
             m = apply_model(m, op)
+            if k == "init":
+                continue
             if k == "min":
                 P.minimize(objs[op[1]]())
             elif k == "max":
@@ -317,6 +329,9 @@ DRIVERS = {
     "bounds": dict(roots=[(("min", "Q"),), (("min", "L1"), ("st", "c1"))],
                    menu=[("xub", 2.0), ("xub", 4.0), ("ylb", 1.0), ("ylb", 0.0), S("auto"), S("L-BFGS-B"), S("SLSQP"),
                          S("trust-constr"), S("highs"), ("read",)], depth=None),
+    "free-then-bounded": dict(roots=[(("init", "free"), ("min", "Q")), (("init", "free"), ("min", "Q"), ("st", "c1"))],
+                              menu=[("xub", 0.5), ("xub", None), ("ylb", 3.0), ("ylb", None), S("auto"), S("L-BFGS-B"), S("SLSQP"),
+                                    S("trust-constr"), ("read",)], depth=None),
     "variable-set": dict(roots=[(("st", "c1"), ("st", "c3"))],
                          menu=[("max", "La"), ("max", "Lz"), ("min", "Laz"), ("min", "L1"), ("min", "Qz"), S("auto"), S("SLSQP"),
                                ("read",)], depth=None),
@@ -339,7 +354,7 @@ def explore(item, tier, seed):
     rep = Report()
     if item[0] == "closed":
         cfg = DRIVERS[item[1]]
-        drv = Driver(cfg["menu"], cfg.get("max_cons", 2 if tier == "quick" else 3))
+        drv = Driver(cfg["menu"], cfg.get("max_cons", 2 if tier == "quick" else 3), cfg.get("init"))
         ns, nt, fix = bfs(drv, [cfg["roots"][item[2]]], max_depth=14 if tier == "quick" else 20, rep=rep)
         rep.outcomes["driver:%s/%d:%s" % (item[1], item[2], "fixpoint" if fix else "depth-bounded")] += 1
         rep.extra["fixpoint:%s/%d" % (item[1], item[2])] = bool(fix)
